@@ -247,6 +247,7 @@ ORDER_VARIANTS = {
     "interleaved": {"interleave": True},       # a (vacuous) resource constraint declared between two requirements
     "second-solver": {"resolve": True},        # the complete model was already solved once by another solver object
     "later-problem": {"later_problem": True},  # another problem is created before this one gets its solver
+    "other-solved-midway": {"other_midway": True},   # an earlier problem is solved in the middle of this one's declaration
 }
 
 
